@@ -201,14 +201,14 @@ func (n *LocalNode) FinishLeave(stabilize bool, release bool) error {
 	}
 	if release {
 		n.logger.Info("Leave completed, leaver has requested to release membership lock")
+		// the leaver (our predecessor) is gone by now: drop the stale pointer before the
+		// membership lock is released, so that a join request admitted next is not handed
+		// a key range computed from the departed node
+		n.checkPredecessor()
 		if curr, ok := n.state.Transition(chord.Transferring, chord.Active); !ok {
 			n.logger.Error("Unable to release membership lock", zap.String("state", curr.String()))
 			return chord.ErrLeaveInvalidState
 		}
-		// the leaver (our predecessor) is gone by now: drop the stale pointer right away, so
-		// that a join request arriving before the next predecessor check is not handed a
-		// key range computed from the departed node
-		n.checkPredecessor()
 	}
 	return nil
 }
